@@ -15,6 +15,7 @@ import ASV.Proofs.ProtoRing
 import ASV.Proofs.ProtoRingSep
 import ASV.Proofs.ProtoRingFinal
 import ASV.Proofs.ProtoRingSup
+import ASV.Proofs.ProtoExtendRing
 namespace ASV.C03
 open ASV ASV.Rules ASV.Proto ASV.Chains ASV.ChainSweep
 
@@ -425,6 +426,31 @@ theorem extenders_linear (within : Lookup) (r : Rec) (hlin : r.circular = false)
         .ok (⟨rule.name, .simple q2, .simple ⟨max 0 (q2.lo - rule.nbhd), min (q2.hi + rule.nbhd) r.len, .fwd⟩⟩, doms) :=
   extendCluster_line within r hlin rules pc rule hrule hn hext p hcore h0 h1 h2 hgenes first last hfirst hlast hsub
 
+/-- **EXTENDERS (circular record)** — `_partial`: conditional on `apply_extenders` returning for the
+    protocluster, and "covers" instead of "smallest span" (see design/C03.md).  On any circular record whose
+    genes are valid ring locations, for a protocluster with an area core and a rule whose EXTENDERS clause is
+    in the documented grammar: the genes joined to the core are exactly those the walk rules admit when the
+    walk goes on round the ring — backwards from the first gene inside the core over the genes before it
+    nearest first and then on from the end of the record, forwards from the last gene inside it and then
+    on from the start — with distances measured the shorter way round (`≤ cutoff`); the new core is the
+    `connect_locations` span of the old core and the admitted genes, a well-formed area that covers the
+    old core and every admitted gene. -/
+theorem extenders_ring_partial (within : Lookup) (r : Rec) (hcirc : r.circular = true) (hL : 0 < r.len)
+    (rules : List RuleM) (hgenes : ∀ g ∈ r.genes, RingIn r.len g.loc) (pc pc' : PC) (d : Doms)
+    (harea : RingArea r.len pc.core) (hsub : ∀ g ∈ within pc.core false, g ∈ r.genes)
+    (rule : RuleM) (hrule : findRule rules pc.rule = .ok rule) (hext : ∀ c, rule.extenders = some c → c.WF = true)
+    (h : extendCluster within r rules pc = .ok (pc', d)) :
+    ∃ first last back forw core1,
+      (within pc.core false).head? = some first ∧ (within pc.core false).getLast? = some last ∧
+      ExtWalk rule.cutoff (fun a b => specDistFull r.len a.loc b.loc) (extOK rule)
+        (fun g => locationContainsOther pc.core g.loc) first (walkBackRing r pc.core) back ∧
+      joinRing r pc.core back = some core1 ∧
+      ExtWalk rule.cutoff (fun a b => specDistFull r.len a.loc b.loc) (extOK rule)
+        (fun g => locationContainsOther core1 g.loc) last (walkForwardRing r pc.core) forw ∧
+      joinRing r core1 forw = some pc'.core ∧
+      RingArea r.len pc'.core ∧ Covers pc'.core pc.core ∧ ∀ g ∈ back ++ forw, Covers pc'.core g.loc :=
+  extendCluster_ring within r hcirc hL rules hgenes pc pc' d harea hsub rule hrule hext h
+
 /-- **Superiors: exact characterisation of the implementation.**  Whenever the redundancy test of a
     protocluster `pc` returns, it returns `true` exactly when, for one of the superiors of `pc`'s rule,
     some protocluster `o` of that superior either has a core containing `pc`'s core, or its first/last
@@ -588,6 +614,23 @@ example : RingArea 100 (.compound [⟨92, 100, .fwd⟩, ⟨0, 5, .fwd⟩]) ∧
   intro i hi
   simp only [Loc.mem, Loc.parts, List.any_cons, List.any_nil, Bool.or_false, Part.mem_iff, Bool.or_eq_true] at hi ⊢
   omega
+
+/-- EXTENDERS over the origin: ring of length 69, anchor `a` at [1,2), extender `x` at [64,65) (5 bases before
+    it across the origin, cutoff 5), another gene at [58,59): the backwards walk goes on from the end of the
+    record and admits `x`; with cutoff 4 it does not -/
+def extRing : Rec := ⟨69, true,
+  [⟨0, .simple ⟨1, 2, .fwd⟩, [("a", 0)], true⟩, ⟨4, .simple ⟨58, 59, .fwd⟩, [], true⟩,
+   ⟨1, .simple ⟨64, 65, .fwd⟩, [("x", 0)], true⟩]⟩
+def extRingRule (c : Int) : RuleM :=
+  ⟨"r0", c, 1, .group false [.single false "a"], [], some (.single false "x")⟩
+example : (match detectProtoclusters (withinSpec extRing) extRing [extRingRule 5] with
+    | .ok outs => outs.map (fun o => o.pc.core) == [Loc.compound [⟨64, 69, .fwd⟩, ⟨0, 2, .fwd⟩]]
+    | .error _ => false) = true := by decide +kernel
+example : (match detectProtoclusters (withinSpec extRing) extRing [extRingRule 4] with
+    | .ok outs => outs.map (fun o => o.pc.core) == [Loc.simple ⟨1, 2, .fwd⟩]
+    | .error _ => false) = true := by decide +kernel
+example : (extendedCoreRing extRing (extRingRule 5) [⟨0, .simple ⟨1, 2, .fwd⟩, [("a", 0)], true⟩]).map (·.canon)
+    = some [(0, 2), (64, 69)] := by decide +kernel
 
 /-- EXTENDERS, non-trivially: anchor `a` at [3006,3008), extender genes `x` at [2005,2007) (999 bases
     before the anchor) and `y` at [1003,1005) (1000 bases before `x`, 2001 before the anchor), cutoff 1000:
